@@ -143,6 +143,9 @@ def write_evidence(ctx, mod, nviol, extra_assumptions=()):
                 "hand-written model lean/CobaldVerif/Model (tied to the code by the correspondence streams: %s)" % ", ".join(streams),
                 "Python harness: generators, canonicalisers, independent oracle",
             ]
+            + (["translator harness/vh/translate.py: the Lean text of Generated/Src*.lean is regenerated from the source of /repo on every run "
+                "(translation rules, and for pinned functions the transcription of the model from harness/vh/pins.json, are trusted); "
+                "theorems named gen_* equate it with the hand-written model"] if getattr(mod, "REGENERATE_SRC", False) else [])
             + list(getattr(mod, "TRUSTED", [])),
             "theorems": {n: a for n, a in theorems.items()},
             "proof_obligations_broken": st.get("bad", []),
